@@ -67,6 +67,8 @@ def np_array(dtype, shape, order, pattern):
         a = np.zeros(n, dtype=dtype)
     elif pattern == "arange":
         a = (np.arange(n) % 2).astype(dtype) if dtype == "bool" else np.arange(n).astype(dtype)
+    elif pattern == "arangeT":  # the transposed content of "arange" (square 2-D shapes only)
+        a = np.arange(n).astype(dtype).reshape(tuple(shape)).T.reshape(n)
     elif pattern == "bits":  # the bit patterns of 0..n-1 reinterpreted in this dtype (same item size as intN)
         a = np.arange(n, dtype=f"int{np.dtype(dtype).itemsize * 8}").view(dtype)
     else:
@@ -357,6 +359,11 @@ def np_arrays(thorough):
             for pat in pats:
                 orders = ["C", "F"] if len(shp) >= 2 and min(shp) >= 2 else ["C"]
                 for o in orders:
+                    out.append(["nparray", dt, shp, o, pat])
+    for dt in ["int64", "float64"] + (["complex64", "uint8"] if thorough else []):
+        for shp in ([2, 2], [3, 3]):
+            for pat in ("arange", "arangeT"):
+                for o in ("C", "F"):
                     out.append(["nparray", dt, shp, o, pat])
     for shp in ([2], [1, 2], [6], [2, 3]):
         out.append(["nparray", "object", shp, "C", "arange"])
